@@ -58,7 +58,31 @@ func walkEval(op string, a []string) string {
 	for _, s := range decStrList(a[4]) {
 		skips = append(skips, string(s))
 	}
-	got := fzf.VerifReadFiles([]string{string(decBytes(a[5]))}, a[0] == "1", a[1] == "1", a[2] == "1", a[3] == "1", skips)
+	file, dirOpt, hidden, follow := a[0] == "1", a[1] == "1", a[2] == "1", a[3] == "1"
+	// when the skip list can be written as a --walker-skip value (no empty entry, no comma), take the
+	// walker options the way a user gives them: through option parsing
+	expressible := len(skips) > 0
+	for _, sk := range skips {
+		if sk == "" || strings.Contains(sk, ",") {
+			expressible = false
+		}
+	}
+	if expressible {
+		w := []string{}
+		for k, on := range []bool{file, dirOpt, hidden, follow} {
+			if on {
+				w = append(w, []string{"file", "dir", "hidden", "follow"}[k])
+			}
+		}
+		args := []string{"--walker-skip=" + strings.Join(skips, ",")}
+		if len(w) > 0 {
+			args = append(args, "--walker="+strings.Join(w, ","))
+			if f2, d2, h2, l2, sk2, err := fzf.VerifParsedWalker(args); err == nil {
+				file, dirOpt, hidden, follow, skips = f2, d2, h2, l2, sk2
+			}
+		}
+	}
+	got := fzf.VerifReadFiles([]string{string(decBytes(a[5]))}, file, dirOpt, hidden, follow, skips)
 	sort.Strings(got)
 	out := [][]byte{}
 	for _, g := range got {
@@ -68,7 +92,7 @@ func walkEval(op string, a []string) string {
 }
 
 func walkGen(r *rand.Rand, count int, emit func(op string, args ...string)) {
-	names := []string{"a", "b", "src", "lib", ".git", ".hid", "node_modules", "x y", "foo", "bar", "baz", "é", ".dotfile", "n\nl", "foo.go", "README"}
+	names := []string{"a", "b", "src", "lib", ".git", ".hid", "node_modules", "x y", "foo", "bar", "baz", "é", ".dotfile", "n\nl", "foo.go", "README", "trail ", " lead", "trail", "lead"}
 	for i := 0; i < count; i++ {
 		dirs := []string{}
 		entries := [][]byte{}
